@@ -434,7 +434,20 @@ End Layout.
 (* ------------------------------------------------------------------ correspondence *)
 
 (* a string given by its bytes (for fields that are not printable ASCII) *)
-Definition bs (l : list N) : string := String.string_of_list_ascii (map Ascii.ascii_of_N l).
+Definition bs (p : N * list chunk) : string :=
+  String.string_of_list_ascii (map Ascii.ascii_of_N (unpack (fst p) (snd p))).
+
+(* a long string given by its runs of equal bytes: [(byte, count); ...] *)
+Fixpoint rep_ascii (n : nat) (a : Ascii.ascii) (tail : string) : string :=
+  match n with
+  | O => tail
+  | S k => String.String a (rep_ascii k a tail)
+  end.
+Fixpoint runs (l : list (N * N)) : string :=
+  match l with
+  | [] => String.EmptyString
+  | (b, n) :: r => rep_ascii (N.to_nat n) (Ascii.ascii_of_N b) (runs r)
+  end.
 
 Fixpoint lookup (tbl : list (string * option float)) (s : string) : option spec_float :=
   match tbl with
@@ -446,7 +459,7 @@ Fixpoint lookup (tbl : list (string * option float)) (s : string) : option spec_
 Definition class_of (o : outcome) : N := match o with Err => 0 | Mesh _ => 1 | Panic => 2 end.
 
 (* id, (length, chunks), lines, scanner error, ParseFloat table, LoadSTL (class, triangles), ImportSTL class *)
-Definition case := (N * (N * list N) * list (list string) * bool * list (string * option float)
+Definition case := (N * (N * list chunk) * list (list string) * bool * list (string * option float)
                     * (N * list ftri) * N)%type.
 
 Definition case_ok (c : case) : bool :=
@@ -468,7 +481,7 @@ Definition witness_file : file :=
      f_lines := [["solid"; "w"]; ["vertex"; "0"; "0"; "0"]; ["vertex"; "1"; "0"; "0"]; ["endsolid"; "w"]]%string;
      f_scan_err := false |}.
 Definition witness_parse (s : string) : option spec_float :=
-  if String.eqb s "0" then Some (S754_zero false) else if String.eqb s "1" then Some (Prim2SF 1) else None.
+  if String.eqb s "0" then Some (S754_zero false) else if String.eqb s "1" then Some (S754_finite false 4503599627370496 (-52)) else None.
 
 Lemma witness_pinned_panics : load witness_parse Pinned witness_file = Panic.
 Proof. vm_compute. reflexivity. Qed.
